@@ -39,7 +39,7 @@ def read_rows(run):
     return rows
 
 
-def scenario(spec, prefix, n_events, restart_before, crash_at, torn, wd):
+def scenario(spec, prefix, n_events, restart_before, crash_at, torn, wd, buffered=False):
     """Returns dict(effects=[labels]) in count mode (crash_at None) or dict(violations=[...])."""
     ch = Chooser(prefix)
     run = l1.L1Run(spec, ch, wd, [])
@@ -51,7 +51,7 @@ def scenario(spec, prefix, n_events, restart_before, crash_at, torn, wd):
     cut = len(ch.trace) + 2  # choices before the last step plus its (complete, outcome)
     if crash_at is not None:
         ch.prefix = ch.prefix[:cut]
-    with faultfs.section(run.dir, crash_at=crash_at, torn=torn) as S:
+    with faultfs.section(run.dir, crash_at=crash_at, torn=torn, buffered=buffered) as S:
         try:
             run.event()
             crashed = False
@@ -190,7 +190,8 @@ def _job(args):
         hs = histories(spec, n_events, restart_before, wd)
         hs = hs[hist_slice[0]::hist_slice[1]]
         for prefix in hs:
-            base = scenario(spec, prefix, n_events, restart_before, None, None, wd)
+          for buffered in (False, True):
+            base = scenario(spec, prefix, n_events, restart_before, None, None, wd, buffered=buffered)
             eff = base["effects"]
             occ = {}
             for k, lab in enumerate(eff):
@@ -206,16 +207,16 @@ def _job(args):
                 if k not in keep:
                     continue
                 variants = [None]
-                if kind == "write":
+                if kind in ("write", "flush"):
                     variants = [None] + list(torn_set)
                 for torn in variants:
                     n += 1
-                    r = scenario(spec, base["choices"], n_events, restart_before, k, torn, wd)
-                    classes.add((kind, rel, site, torn is not None, bool(r["violations"])))
+                    r = scenario(spec, base["choices"], n_events, restart_before, k, torn, wd, buffered=buffered)
+                    classes.add((kind, rel, site, torn is not None, bool(r["violations"]), buffered))
                     for clause, msg in r["violations"]:
                         sig = f"{clause}@{window(kind, rel, site)}"
-                        viols.setdefault(sig, (f"crash after effect #{k} {(kind, rel, site)} torn={torn}: {msg}",
-                                               dict(args=list(args[:5]), prefix=base["choices"], k=k, torn=torn)))
+                        viols.setdefault(sig, (f"{'buffered' if buffered else 'unbuffered'} writes, crash after effect #{k} {(kind, rel, site)} torn={torn}: {msg}",
+                                               dict(args=list(args[:5]), prefix=base["choices"], k=k, torn=torn, buffered=buffered)))
     finally:
         os.chdir(old)
         l1.deactivate()
@@ -267,7 +268,7 @@ def run(ctx):
         ctx.exhaustive = False
         ctx.caps.append("quick tier: of an effect repeated more than 4 times within a step (e.g. the ~60 writes of restart.toml) only the first, second, middle and last occurrence are crashed; the thorough tier crashes after every effect")
     ctx.assume("crash = the main process dies between two effects; writes are unbuffered (a buffered writer can only lose more of an unflushed file, covered by the torn prefixes); "
-               "worker scratch directories and logs are not part of the state")
+               "worker scratch directories and logs are not part of the state; every scenario is run under two write models: unbuffered (each write() reaches the disk) and buffered (data reaches the disk at flush/close/8 KiB, so renames and removes can overtake it)")
 
 
 def replay(data):
@@ -276,9 +277,10 @@ def replay(data):
     wd = os.path.join(scratch.mkdtemp("c08r"), "run")
     old = os.getcwd()
     try:
-        base = scenario(spec, data["prefix"], n_events, restart_before, None, None, wd)
+        buffered = data.get("buffered", False)
+        base = scenario(spec, data["prefix"], n_events, restart_before, None, None, wd, buffered=buffered)
         kind, rel, site = base["effects"][data["k"]]
-        r = scenario(spec, data["prefix"], n_events, restart_before, data["k"], data["torn"], wd)
+        r = scenario(spec, data["prefix"], n_events, restart_before, data["k"], data["torn"], wd, buffered=buffered)
         return [(f"{c}@{window(kind, rel, site)}", m) for c, m in r["violations"]]
     finally:
         os.chdir(old)
